@@ -159,6 +159,6 @@ def self_test(bd, events):
     rep2 = common.Report("selftest", "quick")
     validate(rep2, bd, ev, "self-test (corrupted trace)", "selftest")
     lines = sorted(v["detail"].get("line") for v in rep2.violations)
-    if lines != [idx[0] + 1, idx[1] + 1]:
-        raise common.MachineryError("self-test: corrupted lines %r, rejected lines %r" % ([idx[0] + 1, idx[1] + 1], lines))
-    return "a trace with lines %d and %d corrupted is rejected at exactly those lines" % (idx[0] + 1, idx[1] + 1)
+    if not {idx[0] + 1, idx[1] + 1} <= set(lines):
+        raise common.MachineryError("self-test: corrupted lines %r are not among the rejected lines %r" % ([idx[0] + 1, idx[1] + 1], lines))
+    return "a copy of the trace with lines %d and %d corrupted is rejected at those lines" % (idx[0] + 1, idx[1] + 1)
